@@ -54,6 +54,7 @@ type Client struct {
 
 	responseTimeout time.Duration
 	awaitingReply   map[wamp.ID]chan wamp.Message
+	replyGone       map[wamp.ID]chan struct{}
 
 	eventHandlers map[wamp.ID]EventHandler
 	topicSubID    map[string]wamp.ID
@@ -249,6 +250,7 @@ func NewClient(p wamp.Peer, cfg Config) (*Client, error) {
 
 		responseTimeout: cfg.ResponseTimeout,
 		awaitingReply:   map[wamp.ID]chan wamp.Message{},
+		replyGone:       map[wamp.ID]chan struct{}{},
 
 		eventHandlers: map[wamp.ID]EventHandler{},
 		topicSubID:    map[string]wamp.ID{},
@@ -1291,6 +1293,20 @@ func (c *Client) expectReply(id wamp.ID) {
 	wait := make(chan wamp.Message)
 	c.sess.Lock()
 	c.awaitingReply[id] = wait
+	c.replyGone[id] = make(chan struct{})
+	c.sess.Unlock()
+}
+
+// doneWaiting removes the awaiting reply entry for the request ID, and
+// releases the run() goroutine if it is about to hand over a reply that is no
+// longer waited for (a reply that arrives just as the wait times out).
+func (c *Client) doneWaiting(id wamp.ID) {
+	c.sess.Lock()
+	delete(c.awaitingReply, id)
+	if gone, ok := c.replyGone[id]; ok {
+		close(gone)
+		delete(c.replyGone, id)
+	}
 	c.sess.Unlock()
 }
 
@@ -1324,9 +1340,7 @@ func (c *Client) waitForReply(id wamp.ID) (wamp.Message, error) {
 	case <-c.Done():
 		err = ErrNotConn
 	}
-	c.sess.Lock()
-	delete(c.awaitingReply, id)
-	c.sess.Unlock()
+	c.doneWaiting(id)
 
 	return msg, err
 }
@@ -1400,9 +1414,7 @@ CollectResults:
 		err = ErrNotConn
 	}
 	// All done with this call, so not waiting for more replies.
-	c.sess.Lock()
-	delete(c.awaitingReply, id)
-	c.sess.Unlock()
+	c.doneWaiting(id)
 
 	return msg, err
 }
@@ -1917,6 +1929,7 @@ func (c *Client) runSignalReply(msg wamp.Message, requestID wamp.ID) {
 	var ok bool
 	c.sess.Lock()
 	w, ok = c.awaitingReply[requestID]
+	gone := c.replyGone[requestID]
 	c.sess.Unlock()
 	if !ok {
 		c.log.Println("Received", msg.MessageType(), requestID,
@@ -1925,6 +1938,8 @@ func (c *Client) runSignalReply(msg wamp.Message, requestID wamp.ID) {
 	}
 	select {
 	case w <- msg:
+	case <-gone:
+		// The waiter gave up (timeout or cancel) after the lookup above.
 	case <-c.Done():
 	}
 }
